@@ -172,9 +172,12 @@ def project_servermux(beh, rng, ids=("A", "B"), sizes=None, name="", kinds=("cut
     def ipval(x):
         return None if x == "<absent>" else x
 
+    shape, conveq = "random", False
     for act, args in beh:
         if act in ("G_Open", "S_Open"):
             k, pl = args[0], args[1]
+            if "shape" in pl:
+                shape, conveq = pl["shape"], bool(pl.get("conveq"))
             label = "c%d" % k
             order.append(label)
             p, h = pl["pres"], pl["hello"]
@@ -260,7 +263,9 @@ def project_servermux(beh, rng, ids=("A", "B"), sizes=None, name="", kinds=("cut
         if not s["carriers"]:
             s["carriers"].append({"label": "", "ip": None, "pres": "id"})
     sc = {"name": name, "seed": rng.getrandbits(48), "sessions": sessions, "extras": extras, "order": order}
-    info = {"cuts": cuts, "classes": classes, "carriers": len(order), "sessions": len(sessions), "extras": len(extras), "gaps": gaps[0]}
+    if len(sessions) >= 2:
+        sc["id_shape"], sc["conv_equal"] = shape, conveq
+    info = {"shape": sc.get("id_shape"), "conveq": sc.get("conv_equal"), "cuts": cuts, "classes": classes, "carriers": len(order), "sessions": len(sessions), "extras": len(extras), "gaps": gaps[0]}
     return sc, info
 
 
@@ -404,6 +409,28 @@ def project_tunnel(beh, rng, sessions=("A", "B"), sizes=None, name="", big=0.03)
     return sc, {"faults": faults, "kinds": kinds, "carriers": sum(len(x["carriers"]) for x in out)}
 
 
+def bulk_outage(sc, rng, variant):
+    """Turn a schedule into the bulk-outage class: several MiB each way, the
+    first usable carrier is lost in the middle of the transfer and NO carrier is
+    there for 2-3 s (the pool is empty), so that the client's send queue and
+    the server's per-client queue overflow with retransmissions (queue full ->
+    drop, Tunnel's ClientSendDrop / ServerSendDrop); then a healthy carrier.
+    variant 1 precedes the loss by a black-holed (stalled) carrier."""
+    out = dict(sc, name=sc["name"] + "-bulk%d" % variant, stale_ms=3000 if variant == 1 else 600)
+    sessions = []
+    for sp in sc["sessions"]:
+        sp = dict(sp, up=rng.choice([4 << 20, 6 << 20]), down=rng.choice([4 << 20, 5 << 20]))
+        first = {"label": "", "ip": "192.0.2.7", "pres": "id",
+                 "fault": {"kind": "stall" if variant == 1 else "cut", "dir": rng.choice(["up", "down"]), "cls": "bnd" if variant == 1 else rng.choice(["body", "pfx", "bnd"]),
+                           "nth": rng.randint(300, 1500)}}
+        second = {"label": "", "ip": "2001:db8::5", "pres": "id", "delay_ms": rng.randint(2000, 3000)}
+        sp["carriers"] = [first, second] + [c for c in sp["carriers"][2:4] if not c.get("delay_ms")]
+        sessions.append(sp)
+    out["sessions"] = sessions[:1] if variant == 1 else sessions
+    out["seed"] = rng.getrandbits(48)
+    return out
+
+
 def dot_paths(dotfile, limit=3000, maxlen=60):
     """Maximal acyclic paths of a `-dump dot,actionlabels` graph, as lists of
     (action, args)."""
@@ -437,7 +464,30 @@ def dot_paths(dotfile, limit=3000, maxlen=60):
 # --------------------------------------------------------------------------
 # Running the rig
 
+def time_scale():
+    """Real-time limits are upper bounds with large margins; they are widened
+    further when the drivers are -race builds (VERIF_RACE=1, set by C20's
+    monitor) or the machine is heavily loaded by other work."""
+    f = 1.0
+    if os.environ.get("VERIF_RACE") == "1":
+        f *= 3
+    try:
+        load = os.getloadavg()[0] / max(1, vlib.NCPU)
+    except OSError:
+        load = 0
+    if load > 1.5:
+        f *= 3
+    elif load > 0.75:
+        f *= 2
+    return f
+
+
 def run_rig(binary, scenarios, par=48, bound_ms=60000, stale_ms=600, timeout=600, tag="rig", env=None):
+    sc = time_scale()
+    bound_ms, timeout = int(bound_ms * sc), timeout * sc
+    if sc > 1:
+        stale_ms = int(stale_ms * min(sc, 3))
+        par = max(8, int(par / sc))
     d = vlib.scratch("rig")
     vlib._tlc_seq[0] += 1
     inp = os.path.join(d, "%s-%d.in.ndjson" % (tag, vlib._tlc_seq[0]))
@@ -603,7 +653,8 @@ def judge(chk, pid, rigbin, scenarios, results, specdir, module, trace_cfg="Trac
                 chk.violation(sig, "session made no progress for %d ms after the last fault although healthy carriers were available: %s" % (2 * bound_ms, res2.get("state")),
                               {"scenario": by_name[n], "state": res2.get("state")})
             else:
-                chk.note("stall of %s not reproduced alone (load artefact)" % n)
+                # no verdict from a wall-clock coincidence: exit 2, never exit 1
+                chk.fail("stall of %s not reproduced alone with doubled limits (load artefact?): no verdict" % n)
                 bad2 = validate(chk, specdir, module, trace_cfg, [res2])
                 for res, kind, detail, local, ev in bad2:
                     chk.violation(signature(pid, res, kind, detail, local, ev), "trace of scenario %s: %s %s at event %s %s" % (res["name"], kind, detail, local, ev),
